@@ -108,6 +108,7 @@ type Options struct {
 	BranchData   bool  // record data points (map order / select); otherwise always alternative 0
 	YieldRelease bool  // make unlock/close/atomic operations scheduling points as well
 	TrackHB      bool  // maintain vector clocks and race detection on Access
+	AccessYield  bool  // make every instrumented memory access a scheduling point as well
 	MaxSteps     int   // safety horizon (0 = 2_000_000)
 	KeyFunc      func(any) (string, bool)
 	Trace        bool // record a textual step trace
